@@ -661,6 +661,50 @@ def rootdist_correspond(ctx, corr, days, shard=150):
     corr.dist["root-distribution:roots-in-layer-20"] = sum(1 for d in pts if len(d["r_hi"]) >= 20)
 
 
+def assim_correspond(ctx, corr, days, shard=400):
+    """assimilation kernel of radia() (CropNModel.assim_of) against the REAL kernel (hook VerifRadia): GPHOT and MAINT of every emitted
+    grown day on which radia() got past its day-length guard; inputs = locals recorded by the harness' shadow copy of radia()"""
+    pts = [d for d in days if d["grown"] and d.get("a_ok")]
+    recs = ["{| aso_in := {| as_rad := %s; as_sund := %s; as_dle := %s; as_dgac := %s; as_dgao := %s; as_drc := %s; as_trrel := %s; as_vswell := %s; "
+            "as_maint_pot := %s; as_cold := %s |}; aso_o_gphot := %s; aso_o_maint := %s |}"
+            % (fl(d["a_rad"]), fl(d["a_sund"]), fl(d["a_dle"]), fl(d["a_dgac"]), fl(d["a_dgao"]), fl(d["a_drc"]), fl(d["a_trrel"]), fl(d["a_vswell"]),
+               fl(d["a_mpot"]), b(d["a_cold"]), fl(d["a_o_gphot"]), fl(d["a_o_maint"])) for d in pts]
+    items = []
+    for k in range(0, len(recs), shard):
+        body = HDR + ["Definition cases : list assim_obs := [\n%s\n]." % ";\n".join(recs[k:k + shard]),
+                      "Definition M := Eval vm_compute in assim_mismatches %d%%nat cases." % k, "Print M."]
+        items.append(("Cases_c09assim_%d" % (k // shard), "\n".join(body) + "\n"))
+    for nm, rc2, o in ctx.coq_eval_many(items, timeout=900):
+        m = re.search(r"M\s*=\s*(.*?)\s*:\s*list \(nat \* nat\)", o, re.S)
+        if rc2 != 0 or not m:
+            corr.mismatches.append({"kind": "coq-eval", "shard": nm, "output": o[-1500:]})
+            continue
+        pairs = re.findall(r"\(\s*(\d+)(?:%nat)?\s*,\s*(\d+)(?:%nat)?\s*\)", m.group(1))
+        if m.group(1).strip() != "[]" and not pairs:
+            corr.mismatches.append({"kind": "coq-eval", "shard": nm, "output": o[-1500:]})
+        for idx, mask in pairs[:10]:
+            d = pts[int(idx)]
+            corr.mismatches.append({"kind": "assimilation-kernel", "differs": [n for j, n in enumerate(["GPHOT", "MAINT"]) if int(mask) >> j & 1],
+                                    "crop": d["crop"], "zeit": d["zeit"], "line": d["line"],
+                                    "case": {k: d[k] for k in d if k.startswith("a_")}})
+    corr.cases += len(recs)
+
+    def hv(s):
+        try:
+            return float.fromhex(s)
+        except ValueError:
+            return float("nan")
+    corr.dist["assimilation-days"] = len(recs)
+    corr.dist["assimilation:from-sunshine"] = sum(1 for d in pts if hv(d["a_rad"]) == 0)
+    corr.dist["assimilation:from-radiation"] = sum(1 for d in pts if hv(d["a_rad"]) != 0)
+    corr.dist["assimilation:water-stress-cut"] = sum(1 for d in pts if hv(d["a_trrel"]) < hv(d["a_vswell"]))
+    corr.dist["assimilation:maintenance-limited"] = sum(1 for d in pts if hv(d["a_o_maint"]) == hv(d["a_o_gphot"]))
+    corr.dist["assimilation:cold-day"] = sum(1 for d in pts if d["a_cold"])
+    for need in ("from-sunshine", "from-radiation", "water-stress-cut", "cold-day"):
+        if pts and not corr.dist["assimilation:" + need]:
+            corr.mismatches.append({"kind": "coverage", "what": "no traced day for the assimilation case " + need})
+
+
 def dl_run(ctx):
     return waterlib.run_harness(ctx, "c09dl", ["-seed", str(ctx.seed), "-n", "4000" if ctx.thorough else "500"])
 
@@ -729,6 +773,7 @@ def correspond(ctx):
     eval_cases(ctx, c, days)
     dev_correspond(ctx, c, days)
     rootdist_correspond(ctx, c, days)
+    assim_correspond(ctx, c, days)
     seen = set()
     for d in days:
         c.bump("crop=" + d["crop"])
